@@ -16,6 +16,8 @@ EXCEPT = {"sorting": "re-keys the tips that were test-and-set when they were add
 def run(db, chk):
     first_parent_rule(db, chk)
     topo_indegree_order_rule(db, chk)
+    topo_initial_flags_rule(db, chk)
+    builder_order_rule(db, chk)
     fns = [f for f in db.by_crate["gix_traverse"] if f.kind != "promoted" and f.file.endswith("commit/simple.rs")]
     chk.floor("functions in commit/simple.rs", len(fns), 10)
     n = 0
@@ -104,3 +106,63 @@ def topo_indegree_order_rule(db, chk):
         chk.ob("indegrees-computed-before-decrement", "expand_topo_walk decrement@%d" % ln, ok,
                "a parent's in-degree is decremented on a path that has not yet compared its generation with self.min_gen (and computed the in-degrees down to it)",
                "%s:%d" % (f.file, ln), key="topo-indegree-order|expand_topo_walk")
+
+
+def topo_initial_flags_rule(db, chk):
+    """the walk steps keep a commit off a queue it is already on by testing a flag (`!state.contains(InDegree)` / `Explored`) - so whoever queues a
+    commit has to set that flag.  Builder::build() queues every tip and end on the explore and the indegree queue: the flags it stores for them
+    (every WalkFlags-typed binding that feeds `states.insert`) must derive from WalkFlags::Explored and WalkFlags::InDegree.  Without InDegree a
+    tip that is also an ancestor of another tip is queued twice and its parents' in-degrees never return to 1: commits silently disappear."""
+    f = db.one(r"^gix_traverse::commit::topo::init::Builder::<Find, Predicate>::build$")
+    fl = Flow(f)
+    for q, flag in ((".indegree_queue", "InDegree"), (".explore_queue", "Explored")):
+        sinks = [c for c in f.calls() if c.is_(r"PriorityQueue<K, T>>::insert$") and q in recv_fields(fl, c.args[0])]
+        chk.floor("Builder::build: insertion into %s" % q[1:], len(sinks), 1)
+        for s in sinks:
+            lp = [l for l in f.loops() if s.block in l["body"]]
+            body = min(lp, key=lambda l: len(l["body"]))["body"] if lp else set(range(len(f.blocks)))
+            st = [c for c in f.calls() if c.block in body and c.is_(r"HashMap::<K, V, S, A>::insert$|::insert$|::entry$") and ".states" in recv_fields(fl, c.args[0]) and len(c.args) == 3]
+            if not st:
+                chk.ob("initial-queue-entry-carries-flag", "build %s insert@%d" % (q[1:], s.line), False, "no state is stored for the queued commit in the same loop", s.where(), key="initial-flag|%s" % flag)
+                continue
+            want = "gix_traverse::commit::topo::WalkFlags::%s" % flag
+            for c in st:
+                defs_ = {r[1] for r in fl.roots(c.args[2], stop_named=False) if r[0] == "constdef"}
+                ok = want in defs_
+                # every named WalkFlags binding that can supply the value must carry the flag itself (tips and ends are built separately)
+                bad = []
+                for l in range(f.argc + 1, len(f.locals)):
+                    nm = f.local_name(l)
+                    if nm is None or "WalkFlags" not in f.locals[l] or f.locals[l].startswith("&"):
+                        continue
+                    d = {r[1] for r in fl.roots(l, stop_named=False) if r[0] == "constdef"}
+                    if d and want not in d and any(x.startswith("gix_traverse::commit::topo::WalkFlags::") for x in d) and "gix_traverse::commit::topo::WalkFlags::Seen" in d:
+                        bad.append(nm)
+                chk.ob("initial-queue-entry-carries-flag", "build %s insert@%d" % (q[1:], s.line), ok and not bad,
+                       "the state stored for a commit that build() puts on the %s does not carry WalkFlags::%s (%s): the walk step queues it a second time" % (q[1:], flag, ", ".join(bad) or "no binding derives from it"),
+                       s.where(), key="initial-flag|%s" % flag)
+
+
+def builder_order_rule(db, chk):
+    """Simple::next reads first-parent walks from the deque `state.next` (next_by_topology) and time-sorted walks from the priority queue
+    `state.queue`.  A builder method that moves the tips into the priority queue therefore has to look at the parents mode afterwards and move them
+    back for Parents::First - otherwise `.parents(First).sorting(ByCommitTime)` yields an empty walk while the other call order works."""
+    f = db.one(r"^gix_traverse::commit::simple::init::<impl gix_traverse::commit::Simple<Find, Predicate>>::sorting$")
+    fl = Flow(f)
+    ins = [c for c in f.calls() if c.is_(r"PriorityQueue<K, T>>::insert$") and ".queue" in recv_fields(fl, c.args[0])]
+    nxt = db.one(r"^<gix_traverse::commit::Simple<Find, Predicate> as std::iter::Iterator>::next$|^gix_traverse::commit::simple::.*Iterator for gix_traverse::commit::Simple<Find, Predicate>>::next$")
+    first_reads_deque = any(rv[0] == "discr" and ".parents" in [x for x in rv[1][1:] if isinstance(x, str)] for bi, si, pl, rv, ln, mc in nxt.assigns()) and bool(nxt.calls_to(r"::next_by_topology$"))
+    chk.floor("Simple::next: dispatch on the parents mode to next_by_topology", int(first_reads_deque), 1)
+    mode_blocks = {bi for bi, si, pl, rv, ln, mc in f.assigns() if rv[0] == "discr" and ".parents" in [x for x in rv[1][1:] if isinstance(x, str)]}
+    back = f.calls_to(r"::queue_to_vecdeque$")
+    oks = [bi for bi, si, pl, rv, ln, mc in f.assigns() if pl == [0] and rv[0] == "agg" and rv[3] == "Ok"]
+    chk.floor("Simple::sorting: Ok return", len(oks), 1)
+    if not ins:
+        chk.ob("sorted-tips-moved-back-for-first-parent", "Simple::sorting (does not fill the priority queue)", True)
+        return
+    for c in ins:
+        r = f.reach_from(c.block, avoid=mode_blocks)
+        ok = not any(o in r for o in oks) and any(any(f.dominates(m, b.block) for m in mode_blocks) for b in back)
+        chk.ob("sorted-tips-moved-back-for-first-parent", "Simple::sorting queue.insert@%d" % c.line, ok,
+               "tips are moved to the priority queue and the method returns without consulting the parents mode: a first-parent walk (which reads the deque) configured before sorting() is empty",
+               c.where(), key="builder-order|sorting")
